@@ -743,7 +743,13 @@ func (l *memoryBlockList) CommitDefragAllocationRequest(allocRequest metadata.Al
 		suballocationType(suballocType),
 		outAlloc,
 	)
-	return err
+	if err != nil {
+		return err
+	}
+
+	// The defragmentation planner recognises its own temporary allocations by the sentinel it finds as the
+	// user data of the block metadata, so that it never proposes them as the source of a move
+	return outAlloc.blockData.block.metadata.SetAllocationUserData(outAlloc.blockData.handle, userData)
 }
 
 func (l *memoryBlockList) CreateAlloc() *Allocation {
